@@ -61,6 +61,16 @@ class _NCF(object):
     pass
 
 
+class _Fields(dict):
+    """stand-in for the structured time-header array: one array per field;
+    assigning to a field copies the values, as a structured array does"""
+
+    def __setitem__(self, k, v):
+        from verifx import shim
+        a = np.array(v, dtype=object, copy=True)
+        dict.__setitem__(self, k, a.view(shim.SymNDArray))
+
+
 class TimeRoundTrip(Obligation):
     mode = 'int'
     validate_paths = 6
@@ -72,6 +82,8 @@ class TimeRoundTrip(Obligation):
 
     def fallback_inputs(self):
         last = 366 if self.year % 4 == 0 else 365
+        if self.year == 2069:
+            last = 364       # end flags in 2070 are outside the YYJJJ format
         return [{'d_j': last, 't_H': 23}, {'d_j': last, 't_H': 22},
                 {'d_j': 1, 't_H': 0}, {'d_j': 59, 't_H': 23},
                 {'d_j': 200, 't_H': 11}]
@@ -85,9 +97,12 @@ class TimeRoundTrip(Obligation):
     def kernel(self):
         if self._k is None:
             sp = loader.TwinSpace(objfloat='all')
+            # everything the time-header fields are computed from (backward
+            # dependency closure from the item assignments  time_hdr[...] =)
             run, info = loader.slice_kernel(
-                'PseudoNetCDF.camxfiles.uamiv.Write', 'ncf2uamiv', W_NAMES,
-                guards=False, space=sp)
+                'PseudoNetCDF.camxfiles.uamiv.Write', 'ncf2uamiv',
+                ['time_hdr[]'], guards=False, space=sp,
+                provided=['ncffile', 'time_hdr'])
             wmod = sp.twin('PseudoNetCDF.camxfiles.uamiv.Write')
             conv = sp.twin('PseudoNetCDF.ArrayTransforms').ConvertCAMxTime
             self._k = (run, info, wmod, conv, sp)
@@ -129,24 +144,23 @@ class TimeRoundTrip(Obligation):
         nc.TSTEP = 10000
         env = dict(wmod.__dict__)
         env['ncffile'] = nc
+        env['time_hdr'] = _Fields()
         import sys
         sys.setprofile(sp.profile())
         try:
             try:
                 out = run(env)
+                th = out['time_hdr']
+                fld = [np.array(list(th[k]), dtype=object)
+                       .view(shim.SymNDArray)
+                       for k in ('ibdate', 'btime', 'iedate', 'etime')]
             except Exception as ex:
                 h.candidate('writer-raised:' + type(ex).__name__,
                             repr(ex)[:200])
                 return
             try:
-                tflag2 = conv(np.array(list(out['date_s']), dtype=object)
-                              .view(shim.SymNDArray),
-                              np.array(list(out['time_s']), dtype=object)
-                              .view(shim.SymNDArray), 1)
-                etflag2 = conv(np.array(list(out['date_e']), dtype=object)
-                               .view(shim.SymNDArray),
-                               np.array(list(out['time_e']), dtype=object)
-                               .view(shim.SymNDArray), 1)
+                tflag2 = conv(fld[0], fld[1], 1)
+                etflag2 = conv(fld[2], fld[3], 1)
             except Exception as ex:
                 h.candidate('reader-raised:' + type(ex).__name__,
                             repr(ex)[:200])
@@ -247,16 +261,6 @@ class TimeRoundTrip(Obligation):
                 os.remove(os.path.join(d, fn))
             os.rmdir(d)
         return {'obs': obs, 'violations': viol, 'start': (self.year, j, H)}
-
-
-class _Fields(dict):
-    """stand-in for the structured time-header array: one array per field;
-    assigning to a field copies the values, as a structured array does"""
-
-    def __setitem__(self, k, v):
-        from verifx import shim
-        a = np.array(v, dtype=object, copy=True)
-        dict.__setitem__(self, k, a.view(shim.SymNDArray))
 
 
 class LatBndTimeRoundTrip(TimeRoundTrip):
